@@ -31,3 +31,33 @@ package httpgen
 //@   ensures custom: basePath == "" && c != "" ==> r == c
 //@   ensures base: basePath != "" && c == "" ==> r == trimSuffix(basePath, "/") + "/" + camelToSnake(method.GoName)
 //@   ensures default: basePath == "" && c == "" ==> r == "/" + string(packageName) + "/" + camelToSnake(method.GoName)
+
+// ---- wiring of annotation validation into file generation (C12) ----
+
+//@ func validateBytesEncodingInMessages(messages []*protogen.Message) (err error)
+//@   decreases spec.depth(messages)
+//@   ensures ok: err == nil ==> spec.AllOK_bytes(messages)
+//@   ensures refuses: err != nil ==> !spec.AllOK_bytes(messages)
+//@   loop 1 invariant forall k int :: 0 <= k && k < _i1 ==> spec.MsgOK_bytes(messages[k]) && spec.AllOK_bytes(messages[k].Messages)
+//@   loop 2 invariant forall j int :: 0 <= j && j < _i2 ==> spec.Rule_bytesEncoding(msg.Fields[j])
+
+//@ func validateNullableInMessages(messages []*protogen.Message) (err error)
+//@   decreases spec.depth(messages)
+//@   ensures ok: err == nil ==> spec.AllOK_nullable(messages)
+//@   ensures refuses: err != nil ==> !spec.AllOK_nullable(messages)
+//@   loop 1 invariant forall k int :: 0 <= k && k < _i1 ==> spec.MsgOK_nullable(messages[k]) && spec.AllOK_nullable(messages[k].Messages)
+//@   loop 2 invariant forall j int :: 0 <= j && j < _i2 ==> spec.Rule_nullable(msg.Fields[j])
+
+//@ func validateEmptyBehaviorInMessages(messages []*protogen.Message) (err error)
+//@   decreases spec.depth(messages)
+//@   ensures ok: err == nil ==> spec.AllOK_emptyBehavior(messages)
+//@   ensures refuses: err != nil ==> !spec.AllOK_emptyBehavior(messages)
+//@   loop 1 invariant forall k int :: 0 <= k && k < _i1 ==> spec.MsgOK_emptyBehavior(messages[k]) && spec.AllOK_emptyBehavior(messages[k].Messages)
+//@   loop 2 invariant forall j int :: 0 <= j && j < _i2 ==> spec.Rule_emptyBehavior(msg.Fields[j])
+
+//@ func validateTimestampFormatInMessages(messages []*protogen.Message) (err error)
+//@   decreases spec.depth(messages)
+//@   ensures ok: err == nil ==> spec.AllOK_timestampFormat(messages)
+//@   ensures refuses: err != nil ==> !spec.AllOK_timestampFormat(messages)
+//@   loop 1 invariant forall k int :: 0 <= k && k < _i1 ==> spec.MsgOK_timestampFormat(messages[k]) && spec.AllOK_timestampFormat(messages[k].Messages)
+//@   loop 2 invariant forall j int :: 0 <= j && j < _i2 ==> spec.Rule_timestampFormat(msg.Fields[j])
